@@ -383,7 +383,7 @@ impl Prop for P {
     const ENGINE: &'static str = "E3-vecmodel";
 
     fn cases(tier: Tier) -> u32 {
-        tier.pick(6000, 80000)
+        tier.pick(24000, 80000)
     }
 
     fn strategy(tier: Tier) -> BoxedStrategy<Case> {
